@@ -1222,7 +1222,137 @@ def c10_25(ctx):
 
 
 
+def c10_26(ctx):
+    """the three combiners evaluated on two copies that each carry something the other lacks, in both directions: PSBT.combine (global xpubs,
+    unknown pairs; the per-input / per-output combiners as recording stand-ins), PSBTIn.combine and PSBTOut.combine (partial signatures,
+    derivations, unknown pairs, scripts, UTXOs, final fields).  After a.combine(b) and after b.combine(a) the combined object carries the
+    UNION of every map and every field either copy had -- nothing is lost, and the content does not depend on the direction"""
+    from sa.cells import Evaluator, Obj, Raised, Undecided
+    out = []
+
+    def run(spec, make, fields, label):
+        mod, fn = rl.get(ctx, spec)
+        try:
+            res = []
+            for direction in (0, 1):
+                ctx.count("cells")
+                a, b = make()
+                if direction:
+                    a, b = b, a
+                try:
+                    Evaluator(ctx.repo, method_hooks={("PSBTIn", "combine"): lambda o, other: o.attrs.setdefault("combined_with", []).append(other),
+                                                      ("PSBTOut", "combine"): lambda o, other: o.attrs.setdefault("combined_with", []).append(other),
+                                                      ("Tx", "hash"): lambda o: o.attrs["h"]} if spec.endswith("PSBT.combine") else {}).call(spec, [b], self_obj=a)
+                except Raised as x:
+                    return ctx.bad(spec, "%s: combining two copies of one PSBT raises %s" % (label, x.name), fn, mod, key="combine-union:" + label)
+                snap = {}
+                for f_ in fields:
+                    v = a.attrs.get(f_)
+                    snap[f_] = (sorted(v.items(), key=repr) if isinstance(v, dict) else v)
+                res.append(snap)
+            want = make.want
+            for d_, snap in enumerate(res):
+                for f_ in fields:
+                    if snap[f_] != want[f_]:
+                        lost = "entries are lost" if isinstance(want[f_], list) and isinstance(snap[f_], list) and len(snap[f_]) < len(want[f_]) else "differs from the union"
+                        return ctx.bad(spec, "%s: after %s the field `%s` %s (%s instead of %s): the combined PSBT depends on which copy was the base" % (
+                            label, "a.combine(b)" if d_ == 0 else "b.combine(a)", f_, lost, _short(snap[f_]), _short(want[f_])), fn, mod, key="combine-union:" + label)
+            return ctx.ok(spec, "%s: both directions give the union of %s" % (label, ", ".join(fields)), fn, mod, key="combine-union:" + label)
+        except Undecided as u:
+            return ctx.err(spec, "%s not evaluable: %s" % (label, u), fn, mod)
+
+    def _short(v):
+        t = repr(v)
+        return t if len(t) < 90 else t[:87] + "..."
+    X1, X2 = Obj("psbt", "NamedHDPublicKey", {"n": 1}), Obj("psbt", "NamedHDPublicKey", {"n": 2})
+
+    def mk_psbt():
+        tx = Obj("tx", "Tx", {"h": b"T" * 32})
+        a = Obj("psbt", "PSBT", {"tx_obj": tx, "hd_pubs": {b"k1": X1}, "extra_map": {b"\xfc\x01": b"u1"}, "psbt_ins": [Obj("psbt", "PSBTIn", {})], "psbt_outs": [Obj("psbt", "PSBTOut", {})]})
+        b = Obj("psbt", "PSBT", {"tx_obj": tx, "hd_pubs": {b"k2": X2}, "extra_map": {b"\xfc\x02": b"u2"}, "psbt_ins": [Obj("psbt", "PSBTIn", {})], "psbt_outs": [Obj("psbt", "PSBTOut", {})]})
+        return a, b
+    mk_psbt.want = {"hd_pubs": sorted({b"k1": X1, b"k2": X2}.items(), key=repr), "extra_map": sorted({b"\xfc\x01": b"u1", b"\xfc\x02": b"u2"}.items(), key=repr)}
+    out.append(run("psbt:PSBT.combine", mk_psbt, ["hd_pubs", "extra_map"], "PSBT"))
+    P1, P2 = Obj("psbt", "NamedPublicKey", {"n": 1}), Obj("psbt", "NamedPublicKey", {"n": 2})
+    RS, WS, PT, PO = Obj("script", "RedeemScript", {}), Obj("script", "WitnessScript", {}), Obj("tx", "Tx", {}), Obj("tx", "TxOut", {})
+
+    def mk_in():
+        blank = {"prev_tx": None, "prev_out": None, "sigs": {}, "hash_type": None, "redeem_script": None, "witness_script": None, "named_pubs": {}, "script_sig": None, "witness": None,
+                 "extra_map": {}}
+        a = Obj("psbt", "PSBTIn", dict(blank, prev_tx=PT, sigs={b"s1": b"sig1"}, redeem_script=RS, named_pubs={b"p1": P1}, extra_map={b"\xfc\x01": b"u1"}))
+        b = Obj("psbt", "PSBTIn", dict(blank, prev_out=PO, sigs={b"s2": b"sig2"}, hash_type=1, witness_script=WS, named_pubs={b"p2": P2}, extra_map={b"\xfc\x02": b"u2"}))
+        return a, b
+    mk_in.want = {"prev_tx": PT, "prev_out": PO, "sigs": sorted({b"s1": b"sig1", b"s2": b"sig2"}.items(), key=repr), "hash_type": 1, "redeem_script": RS, "witness_script": WS,
+                  "named_pubs": sorted({b"p1": P1, b"p2": P2}.items(), key=repr), "extra_map": sorted({b"\xfc\x01": b"u1", b"\xfc\x02": b"u2"}.items(), key=repr)}
+    out.append(run("psbt:PSBTIn.combine", mk_in, ["prev_tx", "prev_out", "sigs", "hash_type", "redeem_script", "witness_script", "named_pubs", "extra_map"], "PSBTIn"))
+
+    def mk_out():
+        a = Obj("psbt", "PSBTOut", {"redeem_script": RS, "witness_script": None, "named_pubs": {b"p1": P1}, "extra_map": {b"\xfc\x01": b"u1"}})
+        b = Obj("psbt", "PSBTOut", {"redeem_script": None, "witness_script": WS, "named_pubs": {b"p2": P2}, "extra_map": {b"\xfc\x02": b"u2"}})
+        return a, b
+    mk_out.want = {"redeem_script": RS, "witness_script": WS, "named_pubs": sorted({b"p1": P1, b"p2": P2}.items(), key=repr), "extra_map": sorted({b"\xfc\x01": b"u1", b"\xfc\x02": b"u2"}.items(), key=repr)}
+    out.append(run("psbt:PSBTOut.combine", mk_out, ["redeem_script", "witness_script", "named_pubs", "extra_map"], "PSBTOut"))
+    return out
+
+
+
+def c10_27(ctx):
+    """the updater's key lookups evaluated with child derivation as a recording stand-in: NamedHDPublicKey.pubkey_lookup(max_child) holds the
+    compressed key and its hash160 of exactly the children 0..max_child; bip44_lookup(max_external, max_internal) the children 0..max_external
+    of the external chain (0) and 0..max_internal of the change chain (1) -- for windows that differ in both directions; redeem_script_lookup
+    the p2sh-p2wpkh RedeemScripts of the same windows.  A key missing from the lookup gets no derivation in the PSBT and cannot be signed for"""
+    from sa.cells import Evaluator, Obj, Raised, Undecided
+    mod, fn = rl.get(ctx, "psbt:NamedHDPublicKey.bip44_lookup")
+
+    def child(o, i, *a, **k):
+        return Obj("psbt", "NamedHDPublicKey", {"trail": o.attrs["trail"] + (i,)})
+    hooks = {("NamedHDPublicKey", "child"): child, ("HDPublicKey", "child"): child,
+             ("HDPublicKey", "sec"): lambda o, *a, **k: ("sec", o.attrs["trail"]), ("HDPublicKey", "hash160"): lambda o, *a, **k: ("h160", o.attrs["trail"]),
+             ("RedeemScript", "__init__"): lambda o, commands=None, *a, **k: o.attrs.update({"commands": commands}), ("RedeemScript", "hash160"): lambda o: ("rs", tuple(o.attrs["commands"]))}
+    out = []
+    try:
+        spec = "psbt:NamedHDPublicKey.pubkey_lookup"
+        mod_, fn_ = rl.get(ctx, spec)
+        bad = None
+        for mx in (0, 1, 9, 25):
+            ctx.count("cells")
+            r = Evaluator(ctx.repo, method_hooks=hooks).call(spec, [mx], self_obj=Obj("psbt", "NamedHDPublicKey", {"trail": (7,)}))
+            want = {("sec", (7, i)) for i in range(mx + 1)} | {("h160", (7, i)) for i in range(mx + 1)}
+            if not isinstance(r, dict) or set(r.keys()) != want or any(v.attrs.get("trail") != k_[1] for k_, v in r.items()):
+                bad = "pubkey_lookup(%d) does not map exactly the keys and hash160s of children 0..%d to those children" % (mx, mx)
+                break
+        out.append(ctx.bad(spec, bad, fn_, mod_, key="lookup-window:pubkey") if bad else ctx.ok(spec, "children 0..max_child, by key and by hash160", fn_, mod_, key="lookup-window:pubkey"))
+        for spec, kind in (("psbt:NamedHDPublicKey.bip44_lookup", "keys"), ("psbt:NamedHDPublicKey.redeem_script_lookup", "scripts")):
+            mod_, fn_ = rl.get(ctx, spec)
+            bad = None
+            for ext, internal in ((9, 9), (2, 5), (5, 2), (0, 0), (0, 3)):
+                ctx.count("cells")
+                r = Evaluator(ctx.repo, method_hooks=hooks).call(spec, [], kwargs={"max_external": ext, "max_internal": internal}, self_obj=Obj("psbt", "NamedHDPublicKey", {"trail": ()}))
+                trails = [(0, i) for i in range(ext + 1)] + [(1, i) for i in range(internal + 1)]
+                if kind == "keys":
+                    want = {("sec", t) for t in trails} | {("h160", t) for t in trails}
+                else:
+                    want = {("rs", (0, ("h160", t))) for t in trails}
+                got = set(r.keys()) if isinstance(r, dict) else None
+                if got != want:
+                    missing = sorted(want - (got or set()), key=repr)[:1]
+                    extra = sorted((got or set()) - want, key=repr)[:1]
+                    bad = "with max_external=%d, max_internal=%d the lookup %s" % (ext, internal, ("lacks %s" % (missing[0],) if missing else "also holds %s" % (extra[0],)) +
+                                                                                  ": external children 0..%d and change children 0..%d are expected" % (ext, internal))
+                    break
+            out.append(ctx.bad(spec, bad + " -- inputs locked to a missing key get no derivation and cannot be signed", fn_, mod_, key="lookup-window:" + kind) if bad else
+                       ctx.ok(spec, "external chain 0..max_external and change chain 0..max_internal, for 5 window pairs", fn_, mod_, key="lookup-window:" + kind))
+    except Raised as x:
+        out.append(ctx.bad("psbt:NamedHDPublicKey.bip44_lookup", "a lookup raises %s" % x.name, fn, mod, key="lookup-window:raises"))
+    except Undecided as u:
+        out.append(ctx.err("psbt:NamedHDPublicKey.bip44_lookup", "lookups not evaluable: %s" % u, fn, mod))
+    return out
+
+
+
 OBLIGATIONS = [
+    ("C10.27", "CELLS lookup windows", c10_27),
+    ("C10.26", "CELLS combiners both directions", c10_26),
     ("C10.25", "CELLS compact size (shared)", c10_25),
     ("C10.19", "CELLS output metadata", c10_19),
     ("C10.20", "CELLS finaliser", c10_20),
